@@ -635,6 +635,27 @@ Proof.
   destruct (d_failed d) eqn:Hf; [by left|right]. destruct (decide (d_deadline d = 0)); [by left|right]. by apply Hr.
 Qed.
 
+(* the property sentence in one statement: a reachable replica whose deadline is still pending when a
+   tick would take logical time past it has not been past it before, fail-stops on that tick, and
+   from then on refuses every update and every query *)
+Lemma failstop P cs d :
+  run P cs = Live d -> d_failed d = false -> d_deadline d <> 0 -> d_deadline d < d_tick d + p_step P ->
+  d_tick d <= d_deadline d /\
+  exists d', db_step P d CTick = SPanic d' /\ d_failed d' = true /\
+    (forall c, rstep P (Live d') c = (Live d', None)) /\
+    (forall cs', run_from P (Live d') cs' = Live d' /\ results_from P (Live d') cs' = replicate (length cs') None) /\
+    (forall q, db_query P d' q = QPanic).
+Proof.
+  intros Hrun Hf Hd Hlt. split.
+  - destruct (no_survivor P cs d Hrun) as [Hx|[Hx|Hx]]; [congruence|contradiction|exact Hx].
+  - destruct (tick_failstop P d Hf) as [H1 _].
+    assert (Hpos : 0 < d_deadline d) by lia.
+    destruct (H1 Hpos Hlt) as (d' & Hs & Hf' & _).
+    exists d'. destruct (failed_forever P d' Hf') as (_ & A & B & C & D).
+    split; [exact Hs|]. split; [exact Hf'|]. split; [exact A|]. split; [|exact D].
+    intros cs'. split; [apply B|apply C].
+Qed.
+
 (** * C09_snapshot: what happens after a prefix is a function of the db record reached *)
 Lemma results_from_app P s cs1 cs2 :
   results_from P s (cs1 ++ cs2) = results_from P s cs1 ++ results_from P (run_from P s cs1) cs2.
